@@ -403,7 +403,8 @@ def histories(tier: str, sd: int) -> List[dict]:
                             i += 1
                             continue
                         if sparse:
-                            fs, gs = [("stratified", "stratified"), ("stratified", "semistrat"), ("stratified", "uniform")][i % 3]
+                            fs, gs = [("stratified", "stratified"), ("stratified", "semistrat"), ("stratified", "uniform"),
+                                      ("uniform", "stratified")][(i * 3 + i // 4) % 4]
                         else:
                             fs, gs = "uniform", "uniform"
                         base = {"loss": loss, "sparse": sparse, "fsampler": fs, "fsamples": 6, "gsampler": gs, "gsamples": 4,
@@ -411,10 +412,12 @@ def histories(tier: str, sd: int) -> List[dict]:
                         if i % 5 == 2:
                             base["via_gcp_opt"] = True
                         pa, pb = dict(base, **P1), dict(base, **P2)
-                        tol = "none" if i % 4 else 1e9          # huge tolerance: stops after the first epoch
-                        solver = {"alg": alg, "rate": rate, "decay": [0.1, 0.5][i % 2], "max_fails": mf, "epoch_iters": ei,
+                        import random
+                        rr = random.Random(15485863 * sd + i)      # options drawn independently of each other
+                        tol = "none" if rr.random() < 0.75 else 1e9          # huge tolerance: stops after the first epoch
+                        solver = {"alg": alg, "rate": rate, "decay": rr.choice([0.1, 0.5]), "max_fails": mf, "epoch_iters": ei,
                                   "max_iters": mi, "tol": tol}
-                        seq = [[pa, pa], [pa, pb, pa], [pb, pa]][i % 3]
+                        seq = rr.choice([[pa, pa], [pa, pb, pa], [pb, pa]])
                         out.append({"solver": solver, "solves": [{"problem": q, "seed": sd + 100 + j} for j, q in enumerate(seq)]})
                         i += 1
     for maxiter in (1, 3, 50):
